@@ -118,7 +118,7 @@ func checkHangRules(c *Ctx, fns []*ssa.Function) {
 				for _, r := range *al.Referrers() {
 					switch u := r.(type) {
 					case *ssa.Call:
-						if CalleeName(u.Common()) == "(*sync.WaitGroup).Add" && len(u.Common().Args) == 2 && u.Common().Args[0] == ssa.Value(al) {
+						if CalleeName(u.Common()) == "(*sync.WaitGroup).Add" && len(u.Common().Args) == 2 && ArgK(u, 0) == ssa.Value(al) {
 							adds = append(adds, u)
 						} else if n := CalleeName(u.Common()); n != "(*sync.WaitGroup).Wait" && n != "(*sync.WaitGroup).Done" {
 							escapes = true
@@ -159,7 +159,7 @@ func checkHangRules(c *Ctx, fns []*ssa.Function) {
 				}
 				for i, add := range adds {
 					nWG++
-					arg := add.Common().Args[1]
+					arg := ArgK(add, 1)
 					construct := fmt.Sprintf("%s: WaitGroup.Add #%d", FuncKey(fn), i+1)
 					want := "the Add is matched by exactly as many goroutines that always call Done"
 					if k, isC := arg.(*ssa.Const); isC {
